@@ -399,7 +399,13 @@ pub fn run(seed: u64, n: u64, thorough: bool, corpus: &[String], dir: &str) {
     let mut out = Outputs::new(dir);
     let mut r = Rng::new(seed);
     let do_line = |line: String, out: &mut Outputs| {
-        let (trace, viol) = if line.starts_with("lnk ") { run_lnk(&line) } else { run_chn(&line) };
+        let res = std::panic::catch_unwind(std::panic::AssertUnwindSafe(|| {
+            if line.starts_with("lnk ") { run_lnk(&line) } else { run_chn(&line) }
+        }));
+        let (trace, viol) = match res {
+            Ok(x) => x,
+            Err(_) => ("PANIC".to_string(), vec!["panic: the implementation panicked on this history".to_string()]),
+        };
         if trace.matches("ok").count() >= 3 {
             out.nontrivial(&line);
         }
